@@ -339,7 +339,7 @@ def _limit_arg(ctx):
 # --------------------------------------------------------------------------------- (b) histories
 
 W_LINES = ["10.0.0.0 0.0.0.3", "20.0.0.5 0.0.1.0", "30.0.0.0 0.0.7.1", "40.0.0.0 0.0.31.0",
-           "50.0.0.0 0.0.0.256"]
+           "50.0.0.0 0.0.0.256", "60.0.0.5 0.0.1.0"]  # last: same mask as the second, other base
 
 
 def _w_ops():
@@ -351,7 +351,7 @@ def _w_ops():
 
 A_LINES = {
     "a": ["any", "host 10.0.0.1", "10.0.0.0/30", "20.0.0.0 0.0.3.3", "object-group G",
-          "30.0.0.0 0.0.0.255", "bad line"],
+          "30.0.0.0 0.0.0.255", "bad line", "21.0.0.0 0.0.3.3"],
     "ag": ["host 10.0.0.1", "10.0.0.0/30", "20.0.0.0 255.255.255.0", "10 30.0.0.0/24",
            "40.0.0.0 0.0.3.3", "bad line"],
 }
